@@ -120,6 +120,9 @@ def run_shard(shard, ctx):
                 for fs in ("none", "both"):
                     group = pat_lines(pat) + ["10 = N %d %d" % f for f in FLAGSETS[fs]]
                     _one(ctx, 192, sync, mname, "between", fs, "lanes-flags", ["2 = N 0 0"], group, ["12 = N 1 1"], pat, sus, longest, header=header)
+                    if header in ("ExpertSingle", "HardDrums"):
+                        for pad in (("", " "), ("", "\t"), ("\t", ""), ("   ", " \t ")):
+                            _one(ctx, 192, sync, mname, "between", fs, "lanes-flags", ["2 = N 0 0"], group, ["12 = N 1 1"], pat, sus, longest, header=header, pad=pad)
         return
     if shard[0] == "tracks":
         # whole tracks: K notes, every assignment of a length out of {0, 1, 5, 40} to every note - the longest
@@ -207,8 +210,8 @@ def run_shard(shard, ctx):
                     _one(ctx, res, sync, mname, cname, fs, order, before, group, after, pat, sus, longest)
 
 
-def _one(ctx, res, sync, mname, cname, fs, order, before, group, after, pat, sus, longest, header="ExpertSingle"):
-    body = before + group + after
+def _one(ctx, res, sync, mname, cname, fs, order, before, group, after, pat, sus, longest, header="ExpertSingle", pad=("", "")):
+    body = [pad[0] + ln + pad[1] for ln in before + group + after]  # blank padding around the lines (promised by C07)
     text = mk(res=res, sync=sync, tracks={header: body})
     exp_notes = []
     if before:
